@@ -131,6 +131,21 @@ def run(ctx):
       continue
     vs = np.vstack([cap['pos_vv'], cap['neg_vv']])
     ys = np.array([1] * len(cap['pos_vv']) + [-1] * len(cap['neg_vv']))
+    # M0 is what the prior option says (independent evaluation): identity / inverse covariance of the DISTINCT training points /
+    # the given array ('random' is C20's).  The points are recovered from the estimator's own tuples for the supervised variant.
+    ctx.count('prior_is_documented', 1)
+    doc = None
+    if prior == 'identity':
+      doc = np.eye(d)
+    elif prior == 'array':
+      doc = np.asarray(kw['prior'], dtype=float)
+    elif prior == 'covariance' and name == 'ITML':
+      Pts = np.unique(np.vstack(fits.fit_args(name, data)[0]), axis=0)
+      doc = np.linalg.pinv(np.atleast_2d(np.cov(Pts, rowvar=False)))
+    if doc is not None and np.abs(A0 - doc).max() > 1e-7 * np.abs(doc).max():
+      ctx.fail_input('prior_is_documented', "the matrix the iterations start from is not the documented '%s' prior" % prior,
+                     dict(estimator=name, params=opt, X=data['X'].tolist(), pairs_idx=data['pairs_idx'].tolist(), bounds=None if bounds is None else np.asarray(bounds).tolist()),
+                     observed=np.asarray(A0).tolist(), expected=doc.tolist())
     lams = cap['_lambda']
     bh = np.concatenate([cap['pos_bhat'], cap['neg_bhat']])
     M = est.get_mahalanobis_matrix()
